@@ -23,8 +23,99 @@ fn ct_eq(a: &Ciphertext, b: &Ciphertext) -> bool {
         && a.scale().to_bits() == b.scale().to_bits() && a.correction_factor() == b.correction_factor()
 }
 
+/// NTT-form PLAINTEXTS down the chain: every (source, target) pair, all six API forms (to-next / to-target x in-place / destination /
+/// returning).  Levels drop the last prime, so the plaintext on the target level is the source truncated to the target's RNS components
+/// (the definition: the same polynomial reduced modulo the remaining primes); it must carry the target's parms id, exactly
+/// N x |target primes| words, the unchanged scale, and must be accepted by a plaintext operation on that level with the unchanged meaning.
+/// Chains include SHORT ones (BFV/BGV with a plain modulus wider than the small primes: the chain stops before a single prime is left, so
+/// the chain index of a level is not its prime count minus one).
+fn plain_switch_cases(out: &mut Out, r: &mut Rng, thorough: bool) {
+    let reps = if thorough { 18 } else { 6 };
+    for rep in 0..reps {
+        let lg = r.range(2, 5) as usize; let n = 1usize << lg;
+        let scheme = [SchemeType::BFV, SchemeType::BGV, SchemeType::CKKS][rep % 3];
+        let short = scheme != SchemeType::CKKS && rep % 2 == 0;
+        let k = if short { 4 + (rep / 3) % 2 } else { 2 + rep % 4 };
+        let bits: Vec<usize> = (0..k + 1).map(|_| if short { 30usize } else { *r.pick(&[30usize, 36, 40, 50]) }).collect();
+        let qs = match pick_primes(r, n, &bits) { Some(v) => v, None => continue };
+        let t = if scheme == SchemeType::CKKS { 0 } else if short { let mut t = (1u64 << r.range(38, 42)) + 1 + 2 * r.below(1 << 20); while qs.iter().any(|&q| gcd(q, t) != 1) { t += 2; } t } else { let tk = r.below(2); pick_plain(r, n, tk, &qs) };
+        let s = match make(scheme, n, &qs, t, true, None) { Some(s) => s, None => continue };
+        let ev = &s.evaluator; let levels = s.levels(); let nl = levels.len();
+        let sn = format!("{}{}", scheme_name(scheme), if short { "-short" } else { "" });
+        let kcount = |pid: &ParmsID| s.level_qs(pid).len();
+        if short && kcount(&levels[nl - 1]) == 1 { out.raw(&format!("!NOTE plain_switch {} chain is not short (reaches a single prime)", sn)); }
+        for src in 0..nl {
+            let m = rand_msg(r, n, if t == 0 { 1 << 20 } else { t });
+            let built = std::panic::catch_unwind(std::panic::AssertUnwindSafe(|| if scheme == SchemeType::CKKS {
+                let enc = CKKSEncoder::new(s.ctx.clone()); enc.encode_f64_single_new(1.25 + src as f64, Some(levels[src]), 2f64.powi(12))
+            } else { ev.transform_plain_to_ntt_new(&plain_of(&m), &levels[src]) }));
+            let p = match built { Ok(p) => p, Err(_) => continue };
+            let check = |out: &mut Out, nm: &str, tgt: usize, res: &Plaintext| {
+                let kt = kcount(&levels[tgt]);
+                let mut why = vec![];
+                if res.parms_id() != &levels[tgt] { why.push("not on the requested level".to_string()); }
+                if res.data().len() != n * kt { why.push(format!("{} words for {} primes x degree {}", res.data().len(), kt, n)); }
+                if res.data().len() >= n * kt && res.data()[..n * kt] != p.data()[..n * kt] { why.push("data is not the source truncated to the target's RNS components".to_string()); }
+                if res.scale().to_bits() != p.scale().to_bits() { why.push("scale changed".to_string()); }
+                if !res.is_ntt_form() { why.push("left NTT form".to_string()); }
+                if why.is_empty() && scheme != SchemeType::CKKS {
+                    // usable with the unchanged meaning: a ciphertext on the target level times the switched plaintext decrypts like the product
+                    // with the same plaintext brought to that level directly
+                    let ok = std::panic::catch_unwind(std::panic::AssertUnwindSafe(|| { let z = s.encryptor.encrypt_zero_new_at(&levels[tgt]); let z = if z.is_ntt_form() { z } else { ev.transform_to_ntt_new(&z) };
+                        let direct = ev.transform_plain_to_ntt_new(&plain_of(&m), &levels[tgt]);
+                        ev.multiply_plain_new(&z, res).data() == ev.multiply_plain_new(&z, &direct).data() }));
+                    match ok { Ok(true) => {}, Ok(false) => why.push("multiply_plain with the switched plaintext differs from the plaintext brought to the level directly".into()), Err(_) => why.push("multiply_plain refuses the switched plaintext".into()) }
+                }
+                if why.is_empty() { out.raw(&format!("!OK plain_switch {} L{} {}->{} {} # plain-{}", sn, nl, src, tgt, nm, sn)); }
+                else { out.raw(&format!("!FAIL plain_switch {} L{} {}->{} {} :: {} # plain-{}", sn, nl, src, tgt, nm, why.join("; "), sn)); }
+            };
+            // to-next, three forms
+            type F<'a> = Box<dyn Fn() -> Plaintext + 'a>;
+            let nexts: Vec<(&str, F)> = vec![("to_next_new", Box::new(|| ev.mod_switch_to_next_plain_new(&p))), ("to_next_dest", Box::new(|| { let mut d = Plaintext::new(); ev.mod_switch_to_next_plain(&p, &mut d); d })), ("to_next_inplace", Box::new(|| { let mut x = p.clone(); ev.mod_switch_to_next_plain_inplace(&mut x); x }))];
+            for (nm, f) in nexts {
+                match std::panic::catch_unwind(std::panic::AssertUnwindSafe(|| f())) {
+                    Ok(res) => { if src + 1 < nl { check(out, nm, src + 1, &res); } else { out.raw(&format!("!FAIL plain_switch {} L{} {} past the last level :: computed instead of refused # plain-refuse", sn, nl, nm)); } }
+                    Err(_) => { if src + 1 < nl { out.raw(&format!("!FAIL plain_switch {} L{} {}->{} {} :: a legal switch was refused # plain-{}", sn, nl, src, src + 1, nm, sn)); } else { out.raw(&format!("!OK plain_switch {} L{} {} past the last level refused # plain-refuse", sn, nl, nm)); } }
+                }
+            }
+            // the walk against the Lean model (plan of `mod_switch_plain_to_inplace` = the code regenerated from source, data by `plainWalkData`):
+            // levels as chain indices (0 = last), prime counts by chain index
+            { let kcs: Vec<u64> = (0..nl).map(|j| kcount(&levels[nl - 1 - j]) as u64).collect();
+              for tgt in 0..nl {
+                  let (ci, ti) = (nl - 1 - src, nl - 1 - tgt);
+                  out.case(&format!("plain_switch_to 1 1 {} {} {} {} {}", ci, ti, n, fl(&kcs), fl(p.data())), &format!("plain-walk-{}-{}", sn, if tgt < src { "up" } else if tgt == src { "same" } else { "down" }), || {
+                      let res = ev.mod_switch_plain_to_new(&p, &levels[tgt]);
+                      let idx = s.ctx.get_context_data(res.parms_id()).unwrap().chain_index();
+                      format!("{}:{}", idx, fl(res.data())) });
+              }
+              if scheme != SchemeType::CKKS && src + 1 < nl {
+                  let pc = plain_of(&m);
+                  out.case(&format!("plain_switch_to 1 0 {} {} {} {} {}", nl - 1 - src, nl - 2 - src, n, fl(&kcs), fl(pc.data())), &format!("plain-walk-{}-coef", sn), || {
+                      let res = ev.mod_switch_plain_to_new(&pc, &levels[src + 1]); format!("{}:{}", s.ctx.get_context_data(res.parms_id()).unwrap().chain_index(), fl(res.data())) });
+              } }
+            // to-target, three forms, every target (upward must be refused, same level is the identity)
+            for tgt in 0..nl {
+                let tos: Vec<(&str, F)> = vec![("to_new", Box::new(|| ev.mod_switch_plain_to_new(&p, &levels[tgt]))), ("to_dest", Box::new(|| { let mut d = Plaintext::new(); ev.mod_switch_plain_to(&p, &levels[tgt], &mut d); d })), ("to_inplace", Box::new(|| { let mut x = p.clone(); ev.mod_switch_plain_to_inplace(&mut x, &levels[tgt]); x }))];
+                for (nm, f) in tos {
+                    match std::panic::catch_unwind(std::panic::AssertUnwindSafe(|| f())) {
+                        Ok(res) => { if tgt >= src { check(out, nm, tgt, &res); } else { out.raw(&format!("!FAIL plain_switch {} L{} {}->{} {} upward :: computed instead of refused # plain-refuse", sn, nl, src, tgt, nm)); } }
+                        Err(_) => { if tgt >= src { out.raw(&format!("!FAIL plain_switch {} L{} {}->{} {} :: a legal switch was refused # plain-{}", sn, nl, src, tgt, nm, sn)); } else { out.raw(&format!("!OK plain_switch {} L{} {}->{} {} upward refused # plain-refuse", sn, nl, src, tgt, nm)); } }
+                    }
+                }
+            }
+        }
+        // a coefficient-form plaintext is refused
+        if scheme != SchemeType::CKKS && nl >= 2 {
+            let pc = plain_of(&rand_msg(r, n, t));
+            if std::panic::catch_unwind(std::panic::AssertUnwindSafe(|| { let _ = ev.mod_switch_plain_to_new(&pc, &levels[nl - 1]); })).is_err() { out.raw(&format!("!OK plain_switch {} coefficient-form plaintext refused # plain-refuse", sn)); }
+            else { out.raw(&format!("!FAIL plain_switch {} coefficient-form plaintext :: switched instead of refused # plain-refuse", sn)); }
+        }
+    }
+}
+
 pub fn run(out: &mut Out, thorough: bool, seed: u64, _extra: &[String]) {
     let mut r = Rng::new(seed);
+    { let mut r2 = Rng::new(seed ^ 0x91a1_5717); plain_switch_cases(out, &mut r2, thorough); }
     let reps = if thorough { 40 } else { 7 };
     for rep in 0..reps {
         let lg = r.range(2, 5) as usize; let n = 1usize << lg;
